@@ -6,6 +6,7 @@
 #include <nstd/PoolMap.hpp>
 #include "engine/histbfs.hpp"
 #include "engine/tracked.hpp"
+#include "harness/pool_canon.hpp"
 #include <algorithm>
 
 using vf::Tracked;
@@ -109,7 +110,7 @@ struct H
     for(int p = 0; p < n; ++p) add(REMI, p);
     if(n) { add(REMF); add(REMB); }
     add(CLEAR);
-    if(cfg.twoVars) add(SWAP);
+    if(cfg.twoVars) { add(SWAP, 0); add(SWAP, 1); }   // both receivers
 #ifndef VF_PM
     if(cfg.twoVars) { add(COPY); add(ASSIGN_BA); add(ASSIGN_AB); }
 #else
@@ -275,7 +276,7 @@ struct H
     }
 #endif
     case CLEAR: LIB(a.clear()); faults(); ref[0].clear(); break;
-    case SWAP: LIB(a.swap(b)); faults(); ref[0].swap(ref[1]); break;
+    case SWAP: if(o.x) LIB(b.swap(a)); else LIB(a.swap(b)); faults(); ref[0].swap(ref[1]); break;
     case SELFSWAP: LIB(a.swap(a)); faults(); break;
 #ifndef VF_PM
     case COPY:
@@ -437,6 +438,7 @@ struct H
         }
       else s += "nodata";
 #endif
+      s += poolCanon(*v[w], *v[1 - w]);
     }
     return s;
   }
